@@ -240,6 +240,20 @@ func deepCopy(v value, seen map[*value]*value) value {
 		return p
 	case iface:
 		return iface{x.t, deepCopy(x.v, seen)}
+	case *tab:
+		n := make([]value, len(x.vals))
+		for i, e := range x.vals {
+			n[i] = deepCopy(e, seen)
+		}
+		return &tab{x.v, n}
+	case *union:
+		n := make([]alt, len(x.alts))
+		for i, a := range x.alts {
+			n[i] = alt{a.g, deepCopy(a.v, seen)}
+		}
+		return &union{n}
+	case errString:
+		return errString{deepCopy(x.s, seen)}
 	}
 	return v
 }
